@@ -164,14 +164,18 @@ func (cb *CircuitBreaker) beforeRequest() error {
 		cb.mutex.RUnlock()
 
 		if canRetry {
+			var notify func()
 			cb.mutex.Lock()
 			// Double-check state hasn't changed
 			if cb.state == StateOpen && cb.nextAttempt.Before(now) {
-				cb.setState(StateHalfOpen)
+				notify = cb.setState(StateHalfOpen)
 				cb.requestCount = 0
 				cb.successCount = 0
 			}
 			cb.mutex.Unlock()
+			if notify != nil {
+				notify()
+			}
 			return nil
 		}
 		return ErrCircuitBreakerOpen
@@ -195,8 +199,18 @@ func (cb *CircuitBreaker) beforeRequest() error {
 // afterRequest updates the circuit breaker state after a request
 func (cb *CircuitBreaker) afterRequest(success bool) {
 	cb.mutex.Lock()
-	defer cb.mutex.Unlock()
+	notify := cb.recordResult(success)
+	cb.mutex.Unlock()
 
+	// Run the state change callback without the lock: it may call back into the breaker
+	if notify != nil {
+		notify()
+	}
+}
+
+// recordResult applies a request outcome (must be called with the write lock held) and
+// returns the pending state change notification, if any
+func (cb *CircuitBreaker) recordResult(success bool) (notify func()) {
 	now := time.Now()
 
 	if success {
@@ -207,7 +221,7 @@ func (cb *CircuitBreaker) afterRequest(success bool) {
 		case StateHalfOpen:
 			cb.successCount++
 			if cb.successCount >= cb.successThreshold {
-				cb.setState(StateClosed)
+				notify = cb.setState(StateClosed)
 				cb.failureCount = 0
 			}
 		}
@@ -218,28 +232,32 @@ func (cb *CircuitBreaker) afterRequest(success bool) {
 		switch cb.state {
 		case StateClosed:
 			if cb.failureCount >= cb.failureThreshold {
-				cb.setState(StateOpen)
+				notify = cb.setState(StateOpen)
 				cb.nextAttempt = now.Add(cb.timeout)
 			}
 		case StateHalfOpen:
-			cb.setState(StateOpen)
+			notify = cb.setState(StateOpen)
 			cb.nextAttempt = now.Add(cb.timeout)
 		}
 	}
+	return notify
 }
 
-// setState changes the circuit breaker state and calls the callback
-func (cb *CircuitBreaker) setState(state State) {
+// setState changes the circuit breaker state (must be called with the write lock held) and
+// returns the callback invocation for the caller to run after releasing the lock
+func (cb *CircuitBreaker) setState(state State) (notify func()) {
 	if cb.state == state {
-		return
+		return nil
 	}
 
 	prev := cb.state
 	cb.state = state
 
-	if cb.onStateChange != nil {
-		cb.onStateChange(cb.name, prev, state)
+	if cb.onStateChange == nil {
+		return nil
 	}
+	name, onStateChange := cb.name, cb.onStateChange
+	return func() { onStateChange(name, prev, state) }
 }
 
 // State returns the current state of the circuit breaker
